@@ -87,6 +87,8 @@ def gen_use_from_pat(rng, p, depth=2):
 
 
 def mutate_elem(rng, toks, datum):
+    """a further item of an ellipsis run, modelled on the first: atoms replaced by other data; now and then an element too
+    many or too few inside a list/vector item (such an item does not match the sub-pattern)"""
     out = []
     for t in toks:
         if t in ("(", ")", "#(", "."):
@@ -95,6 +97,14 @@ def mutate_elem(rng, toks, datum):
             out.append(datum(1))
         else:
             out.append(t)
+    if len(out) >= 2 and out[0] in ("(", "#(") and rng.random() < 0.25:
+        inner = [i for i in range(1, len(out) - 1)]
+        if inner and rng.random() < 0.5:
+            i = rng.choice(inner)
+            if out[i] not in ("(", ")", "#(", "."):
+                del out[i]                                   # one element fewer
+        else:
+            out.insert(len(out) - 1, datum(0))                # one element more
     return out
 
 
